@@ -191,23 +191,36 @@ class Hydrodynamics:
             _, _, Tp, Tm = self.findMatching(vw)
             return [Tp, Tm]
 
-        if (
-            TpTm(self.vJ - self.vBracketLow)[1] < self.TMaxLowT
-            and TpTm(self.vJ - self.vBracketLow)[0] < self.TMaxHighT
+        # The temperatures are not necessarily monotonous in vw (Tp can rise and fall
+        # again before vJ), so scan the window for the FIRST velocity at which a
+        # temperature leaves its allowed range instead of looking at vJ only.
+        vScan = np.linspace(
+            self.vMin + self.vBracketLow, self.vJ - self.vBracketLow, 16
+        )
+        TScan = np.array([TpTm(vw) for vw in vScan], dtype=float)
+
+        def firstCrossing(index: int, TMax: float) -> float:
+            """First vw at which TpTm(vw)[index] reaches TMax; ValueError if none."""
+            outside = np.flatnonzero(TScan[:, index] >= TMax)
+            if len(outside) == 0 or outside[0] == 0:
+                raise ValueError("No crossing inside the window")
+            return float(
+                root_scalar(
+                    lambda vw: TpTm(vw)[index] - TMax,
+                    bracket=[vScan[outside[0] - 1], vScan[outside[0]]],
+                    method="brentq",
+                    xtol=self.atol,
+                    rtol=self.rtol,
+                ).root
+            )
+
+        if np.all(TScan[:, 1] < self.TMaxLowT) and np.all(
+            TScan[:, 0] < self.TMaxHighT
         ):
             return self.vJ
 
-        def TmMax(vw: float) -> float:
-            return TpTm(vw)[1] - self.TMaxLowT
-
         try:
-            vmax1 = root_scalar(
-                TmMax,
-                bracket=[self.vMin + self.vBracketLow, self.vJ - self.vBracketLow],
-                method="brentq",
-                xtol=self.atol,
-                rtol=self.rtol,
-            ).root
+            vmax1 = firstCrossing(1, self.TMaxLowT)
 
             if not self.thermodynamics.freeEnergyLow.maxPossibleTemperature[1]:
                 self.doesPhaseTraceLimitvmax[1] = True
@@ -216,17 +229,8 @@ class Hydrodynamics:
             vmax1 = self.vJ
             self.doesPhaseTraceLimitvmax[1] = False
 
-        def TpMax(vw: float) -> float:
-            return TpTm(vw)[0] - self.TMaxHighT
-
         try:
-            vmax2 = root_scalar(
-                TpMax,
-                bracket=[self.vMin + self.vBracketLow, self.vJ - self.vBracketLow],
-                method="brentq",
-                xtol=self.atol,
-                rtol=self.rtol,
-            ).root
+            vmax2 = firstCrossing(0, self.TMaxHighT)
             if not self.thermodynamics.freeEnergyHigh.maxPossibleTemperature[1]:
                 self.doesPhaseTraceLimitvmax[0] = True
 
